@@ -12,6 +12,7 @@ from symx.runner import F, JobAcc
 PROPERTY = "C04"
 UNIT_LEVEL_SIGS = r"unit:"  # unit-lemma counter-examples are reported as unit-level, never as VIOLATION (DESIGN 6 C04 U1)
 BUDGET = {"quick": 170, "thorough": 1700}
+JOB_CLASS = lambda j: j.get("kind") or f"{j['cfg'][0]}-{'flip' if j['cfg'][2] else 'noflip'}"  # classes that take turns when the budget runs short
 META = {
     "explanation": "bounded symbolic execution of the real ThresholdOptimizer.fit (both _threshold_optimization_* paths, _reformat_and_group_data, "
                    "_tradeoff_curve, _calculate_tradeoff_points, _filter_points_to_get_convex_hull, _interpolate_curve, _get_interpolation_indices, "
